@@ -72,6 +72,7 @@ type Generation struct {
 	StopMid   bool                   `json:"stopMid,omitempty"` // stop while connections are still sending
 	Reload    string                 `json:"reload,omitempty"`  // "", valid, invalid, incompatible: one reload after the traffic was read (reloader mode)
 	Reloads   []ReloadSpec           `json:"reloads,omitempty"` // reloads while the clients are sending (reloader mode)
+	ReloadAtStopUs int               `json:"reloadAtStopUs,omitempty"` // reloader mode: one more reload, triggered this many microseconds after the stop request (negative: before it)
 }
 
 type Scenario struct {
@@ -807,12 +808,33 @@ func runScenario(sc Scenario) *Outcome {
 			}
 			upState = append(upState, st)
 		}
+		// a reload request (SIGHUP) that races with the stop request: the reload is triggered ReloadAtStopUs microseconds
+		// after the stop began (negative: the stop begins that long after the reload was triggered)
+		var raceDone chan *vh.Finding
+		var raceEnd time.Time
+		if g.ReloadAtStopUs != 0 && ag.reload != nil && RealSighup == nil {
+			off := time.Duration(g.ReloadAtStopUs) * time.Microsecond
+			raceDone = make(chan *vh.Finding, 1)
+			go func() {
+				if off > 0 {
+					time.Sleep(off)
+				}
+				f := vh.Protect(ag.reload)
+				raceEnd = time.Now()
+				raceDone <- f
+			}()
+			if off < 0 {
+				time.Sleep(-off)
+			}
+		}
 		// graceful stop, timed
 		t0 := time.Now()
 		done := make(chan struct{})
+		var stopEnd time.Time
 		go func() {
 			ag.stopIn()
 			ag.orch.Shutdown()
+			stopEnd = time.Now()
 			close(done)
 		}()
 		bound := StopBound()
@@ -823,6 +845,24 @@ func runScenario(sc Scenario) *Outcome {
 			return out
 		}
 		stopMs := float64(time.Since(t0).Microseconds()) / 1000
+		if raceDone != nil {
+			select {
+			case f := <-raceDone:
+				if f != nil {
+					f.Key = "reload-at-stop:" + f.Key
+					out.Crash = f
+					return out
+				}
+			case <-time.After(bound + 20*time.Second):
+				out.Crash = vh.Fail("reload-at-stop:hang", "generation %d: a reload triggered %d us after the stop request did not return within %v\n%s", gi, g.ReloadAtStopUs, bound+20*time.Second, vh.GoroutineDump())
+				return out
+			}
+			if raceEnd.After(stopEnd) {
+				out.Notes = append(out.Notes, "reload-at-stop: the reload returned after the stop")
+			} else {
+				out.Notes = append(out.Notes, "reload-at-stop: the reload returned before the stop")
+			}
+		}
 		for _, c := range openConns {
 			c.Close()
 		}
